@@ -17,6 +17,7 @@ OPTION_KEYS = (
 )
 
 
+TIMEOUTS = {"seen": 0}     # time-outs observed in this worker process
 PRELUDE = None      # optional callable(recorder) run when a trace starts (C15: option settings)
 
 
@@ -58,13 +59,16 @@ class Multi(list):
 class Recorder:
     """One trace: SSA registers of real objects + the event log."""
 
-    def __init__(self, trace_id: str, prop: str, seed: int = 0, timeout_s: float = 10.0):
+    def __init__(self, trace_id: str, prop: str, seed: int = 0, timeout_s: float = 90.0):
         self.id = trace_id
         self.prop = prop
         self.seed = seed
         self.regs = []          # real python objects
         self.events = []
-        self.timeout_s = timeout_s
+        # the watchdog separates "does not come back" from "slow": some legal calls take tens of seconds on a loaded
+        # machine (substituting polynomials under retain_coefficients=True); after a time-out in this process the
+        # later calls get a short leash so that a library that hangs everywhere cannot stall a whole check
+        self.timeout_s = max(timeout_s, 90.0) if TIMEOUTS["seen"] == 0 else 5.0
         self.meta = {}
         self.state = {"cms": []}    # harness-side state actions may need (open context managers)
         if PRELUDE is not None:
@@ -99,6 +103,7 @@ class Recorder:
                 signal.signal(signal.SIGALRM, old)
         except CallTimeout:
             out, result = "timeout", None
+            TIMEOUTS["seen"] += 1
         except Exception as exc:  # noqa: BLE001 - every exception is an observation
             out, result = "raise", exc
         ms = (time.perf_counter() - t0) * 1000.0
